@@ -258,6 +258,18 @@ fn gen_area_geom(rng: &mut Rng, pl: Place, depth: u32) -> Geometry<f64> {
 
 pub fn gen(rng: &mut Rng, _index: u64) -> String {
     let pl = gen_place(rng);
+    if rng.chance(1, 60) {
+        // rings with hundreds of vertices (with a hole of the same kind, at an offset now and then)
+        let m = (crate::shapes::long_count(rng) as i64 / 2).min(600);
+        let off = if rng.chance(1, 3) { 100_000_000.0 } else { 0.0 };
+        let sh = |v: Vec<Coord<f64>>, s: f64, dy: f64| -> LineString<f64> { LineString(v.into_iter().map(|c| Coord { x: c.x * s + off, y: c.y * s + dy + off }).collect()) };
+        let ext = sh(crate::shapes::parabola_ring(m), 4.0, 0.0);
+        let holes = if rng.chance(1, 2) && m > 8 { vec![sh(crate::shapes::parabola_ring(m / 2), 2.0, (m * m) as f64)] } else { vec![] };
+        let mut p = Polygon::new(ext, holes);
+        if rng.chance(1, 2) { p.exterior_mut(|e| e.0.reverse()); }
+        let g = if rng.chance(1, 3) { Geometry::MultiPolygon(MultiPolygon(vec![p])) } else { Geometry::Polygon(p) };
+        return format!("C05.area {}", proto::geom(&g));
+    }
     match rng.below(20) {
         0..=8 => format!("C05.area {}", proto::geom(&gen_area_geom(rng, pl, 2))),
         9 => {
